@@ -447,6 +447,7 @@ func ruleDrain(c *Ctx) {
 		c.Unresolved("parseMessage:goroutine", "no stage-2 goroutine found")
 		return
 	}
+	stage2DoneResult(c, p)
 	// --- asynchronous consumer
 	loops := analyseDrainLoops(p, lit.Body)
 	loopOf := map[ast.Stmt]*drainLoop{}
@@ -1293,4 +1294,77 @@ func ruleCursor(c *Ctx) {
 		}
 	}
 	c.Check(okPeek, "peekSize:slot", p.Pos(pfd), "returns indexes[index] (or 0 when exhausted) without advancing", "peekSize does not return the next index increment unchanged and side-effect free", "")
+}
+
+// stage2DoneResult — the `done` result of unifiedMachine is what the drain protocol of parseMessage relies on: it must
+// say whether the terminator has been received.  The only source of that fact is updateChar's first result, so every
+// assignment to `done` comes from updateChar and every return hands `done` back unchanged.
+func stage2DoneResult(c *Ctx, p *GoProg) {
+	fd := p.Func("internalParsedJson.unifiedMachine")
+	if fd == nil {
+		c.Unresolved("internalParsedJson.unifiedMachine", "function not found")
+		return
+	}
+	res := fd.Type.Results
+	var doneObj types.Object
+	if res != nil && len(res.List) > 0 {
+		var names []*ast.Ident
+		for _, f := range res.List {
+			names = append(names, f.Names...)
+		}
+		if len(names) == 2 {
+			doneObj = p.Info.Defs[names[1]]
+		}
+	}
+	if doneObj == nil {
+		c.Unresolved("unifiedMachine:done", "unifiedMachine has no named second result")
+		return
+	}
+	nRet, nAsg := 0, 0
+	okRet, okAsg := true, true
+	whyR, whyA := "", ""
+	var posBad ast.Node = fd
+	ast.Inspect(fd.Body, func(n ast.Node) bool {
+		switch x := n.(type) {
+		case *ast.FuncLit:
+			return false
+		case *ast.ReturnStmt:
+			nRet++
+			if len(x.Results) == 0 {
+				return true
+			}
+			id, ok := ast.Unparen(x.Results[len(x.Results)-1]).(*ast.Ident)
+			if len(x.Results) != 2 || !ok || p.ObjOf(id) != doneObj {
+				okRet = false
+				whyR = "`" + p.Str(x) + "` at " + p.Pos(x)
+				posBad = x
+			}
+		case *ast.AssignStmt:
+			for i, l := range x.Lhs {
+				id, ok := ast.Unparen(l).(*ast.Ident)
+				if !ok || p.ObjOf(id) != doneObj {
+					continue
+				}
+				nAsg++
+				call, _ := ast.Unparen(x.Rhs[0]).(*ast.CallExpr)
+				if i != 0 || len(x.Rhs) != 1 || call == nil || p.CalleeName(call) != "updateChar" {
+					okAsg = false
+					whyA = "`" + p.Str(x) + "` at " + p.Pos(x)
+					posBad = x
+				}
+			}
+		case *ast.UnaryExpr:
+			if id, ok := ast.Unparen(x.X).(*ast.Ident); ok && x.Op == token.AND && p.ObjOf(id) == doneObj {
+				okAsg = false
+				whyA = "address of done taken at " + p.Pos(x)
+			}
+		}
+		return true
+	})
+	c.MinCount("unifiedMachine returns", nRet, 3)
+	c.MinCount("unifiedMachine done assignments", nAsg, 8)
+	c.Check(okRet, "unifiedMachine:done:returned", p.Pos(posBad), "every return of unifiedMachine hands back the `done` flag it received from updateChar",
+		"a return of unifiedMachine reports a terminator status other than the one received ("+whyR+"): parseMessage then either waits for a terminator that was already consumed (hang) or stops draining while one is still queued (stale terminator poisons the next parse)",
+		"a document larger than 8 KiB that stage 1 accepts and stage 2 rejects after the last index, e.g. `[[ … ]`")
+	c.Check(okAsg, "unifiedMachine:done:source", p.Pos(posBad), "`done` is only ever assigned from updateChar", "`done` is assigned from something other than updateChar ("+whyA+")", "")
 }
